@@ -1,6 +1,12 @@
 """C10 / C04 share the real-prover harness (`prove` subcommand)."""
 import json, os
-from checks import read_lines
+
+
+def read_lines(path):
+    try:
+        return [l.rstrip() for l in open(path)]
+    except FileNotFoundError:
+        return []
 
 PROPERTY = "C10"
 
